@@ -17,6 +17,31 @@ CLAIMS = {
              "Tie to the code: block offsets/units/paddings are read from serialize_with_schema of the real crate on every generated case, counts and chunk lengths from a recording writer, consumed positions from both deserializers, and compared with the model. Known finding D10 (non power-of-two unit of RangeTo over odd-sized index types) is listed in known_findings.json and proved as a refutation lemma.",
         note=TRUST + "The eps-copy consumption count is observed (theorem for it is part of C02). D10 class excluded by the hypothesis units_pow2 and reported as KNOWN-FINDING.",
         tech="Coq proofs (bit-level arithmetic lemma; induction over types on the event list) + differential correspondence check", ref="DESIGN.md section 7 C07"),
+    "C02": dict(
+        text="Theorems (Coq): for every type whose units are powers of two covering the native alignment, every value, padding content and base address that is a multiple of the largest unit of the type, eps-copy deserialization of the serialized bytes succeeds, consumes exactly the stream and its result with borrowed parts resolved equals the value (C02_eps_roundtrip); whenever both modes return a value on the same bytes they describe the same value (C02_modes_agree); the same for every field in context (C02_eps_in_context, a dichotomy value / AlignmentError). Derived types: parameter-typed fields eps-copy, all other fields full-copy from the same slice, as the derive generates. "
+             "Tie to the code: every generated case is eps-copy deserialized by the real crate from a 64 KiB aligned buffer and by the extracted model at the same address; results (with the offset, byte length and count of every borrowed slice/str/reference) must agree; direct oracle: erase(eps) = original = full. The proof attempt found a genuine defect (zero-sized zero-copy structures with unit > 1 were misread in eps mode), fixed in /repo (d12f556).",
+        note=TRUST + "Known finding D10 (non power-of-two unit) is excluded by units_pow2 and proved as a refutation lemma. That a Rust reference really aliases the buffer is observed through pointer arithmetic in the harness, not proved.",
+        tech="Coq proof: simulation combinator (value or AlignmentError by base address) by mutual induction over the type grammar + differential correspondence check", ref="DESIGN.md section 7 C02"),
+    "C10": dict(
+        text="Theorems (Coq): complete characterisation of check_header for ANY values of the seven header fields, on both reader backends and every base address: the two entry points return exactly the error given by header_verdict (wrong cookie with its value / endianness for the reversed cookie / major / minor raised / pointer width / type hash / alignment hash, each carrying the offending value) and never a value or a panic; a lower minor version gives the same continuation; a single-bit flip always changes its field and never yields the reversed cookie; every serialized stream starts with that header. "
+             "Tie to the code: on every generated stream all 232 single-bit flips of the 29 fixed bytes, the reversed cookie and minor versions {0,1,2,255,256,65535} are run through deserialize_full and deserialize_eps of the real crate and through the model, and compared; the direct oracle checks the required error and payload for each.",
+        note=TRUST + "The type-name bytes are not among the checked fields (a corrupted name can make String::from_utf8 panic): outside the property, stated as the hypothesis fields_in_range.",
+        tech="Coq proof by case analysis on the header fields (+ bit-level lemma for flips) + differential correspondence check", ref="DESIGN.md section 7 C10"),
+    "C11": dict(
+        text="Theorems (Coq), for every type without any well-formedness hypothesis: every reader of the model consumes a prefix of its input, is independent of what follows, and on every strict prefix of what it consumes fails with ReadError (full-copy) or with ReadError/a panic (eps-copy, never AlignmentError, never a value) -- hence every strict prefix of a stream that deserializes is refused in both modes (C11_truncated_full, C11_truncated_eps), in particular every prefix of what serialization produced (C11_prefix_of_serialization_refused). "
+             "Tie to the code: for every generated stream every cut point is deserialized in both modes by the real crate (reader implementing only read; eps-copy with the valid continuation left in memory behind the prefix so that an out-of-prefix read would succeed and be reported) and by the model, outcome classes compared.",
+        note=TRUST + "'Without reading outside the prefix' is observed, not proved (the model reads lists). load_full/mmap of truncated files are covered with the loaders (C08).",
+        tech="Coq proof: prefix-strictness of reader combinators, mutual induction over the type grammar + differential correspondence check", ref="DESIGN.md section 7 C11"),
+    "C12": dict(
+        text="Theorem (Coq): for EVERY base address, eps-copy deserialization of a serialized stream returns the serialized value exactly when the address is a multiple of need(t, v) -- the largest unit among the zero-copy blocks met for this value -- and AlignmentError otherwise; no other outcome (no wrong value, no other error, no panic, hence no reference misaligned for its type); need is a power of two bounded by the largest unit of the type; requirement 1 means any address works. "
+             "Tie to the code: every generated stream is placed at the 128 residues 0..127 of an aligned arena and eps-copy deserialized by the real crate (references checked for native alignment by the harness) and by the model; the direct oracle recomputes the requirement from the block units recorded by serialize_with_schema.",
+        note=TRUST + "Known finding D10 (non power-of-two unit) excluded by units_pow2.",
+        tech="Coq proof: value-or-AlignmentError simulation parametrised by the base address + differential correspondence check", ref="DESIGN.md section 7 C12"),
+    "C15": dict(
+        text="Theorems (Coq): for Option, Bound, ControlFlow every one-byte tag value that no variant writes, and for derived enums every pointer-width value >= the number of variants, is rejected with InvalidTag carrying exactly that value, in both modes, at every position and whatever follows; the written tag selects exactly its variant's decoder and every value of every sum type round-trips (C15_written_tags_decode). "
+             "Tie to the code: at every tag position of every generated stream (positions read from serialize_with_schema) all foreign one-byte values / boundary usize values are substituted and both deserializers of the real crate and of the model are run and compared.",
+        note=TRUST + "Two defects of this property were found on the pinned tree and fixed in /repo (ControlFlow tags da137be; Option eps payload fd5c726).",
+        tech="Coq proof by computation on the tag + induction over variants + differential correspondence check", ref="DESIGN.md section 7 C15"),
     "C19": dict(
         text="Refinement theorem in Coq: for every unit size and every feasible history of write/read/seek/set_position, the model of AlignedCursor returns the same results and has the same position, length and contents after every operation as the model of std::io::Cursor<Vec<u8>>, plus the storage invariant (whole units, zero beyond len). Both models are tied to the code on every run by executing ~8k (quick) / ~150k (thorough) histories on the real AlignedCursor<T>, the real std cursor and the extracted models.",
         note=TRUST + "Modelled, not verified: Rust's Vec<T> (resize zero-fills with T::default(), storage address aligned to T: observed on every history, not proved). Feasible histories only (no write ending beyond isize::MAX).",
